@@ -360,6 +360,9 @@ class Gen(object):
             body_kids = [self.comment()] + body_kids
         if d.chance(1, 6):
             body_kids = [T(d.pick([" ", "\n", "\n\n"]))] + body_kids if not (body_kids and body_kids[0][0] == "t") else body_kids
+        if d.chance(1, 14) and not (body_kids and body_kids[0][0] == "t"):
+            # a LONG text node (more than 1024 characters) that begins with white space, as the first thing in body
+            body_kids = [T(d.pick([" ", "\n", " \n"]) + d.pick(["long text ", "x", "\xe9 &amp; "]) * (110 + d.below(900)))] + body_kids
         if d.chance(1, 8):
             # first child of body is one of the elements the optional-tag rules single out
             body_kids = [d.pick([E("meta", [[None, "itemprop", "x"], [None, "content", "y"]]), E("link", [[None, "itemprop", "x"], [None, "href", "y"]]),
